@@ -221,7 +221,7 @@ TRoots ==
 
 \* array shapes the harness has to fill (C03's FactorShapes on the matching Factorized configuration)
 TFactorShapes(c) ==
-    FactorShapes([op |-> c.kind, shape |-> c.shape, rank |-> c.rank, bad |-> "none", at |-> 0])
+    FactorShapes([op |-> c.kind, shape |-> c.shape, rank |-> c.rank, bad |-> "none", at |-> 0, dl |-> 0])
 TExpand(c) ==
     c @@ [fshapes |-> TFactorShapes(c),
           coreshape |-> IF c.kind = "tucker" THEN c.rank ELSE <<>>,
@@ -252,7 +252,7 @@ TGenIn(c, axis) ==
       [] c.kind = "tucker" -> [core |-> GenT(c.rank, 9), fs |-> fs]
       [] c.kind \in {"tt", "tr", "ttm"} -> [fs |-> fs]
       [] c.kind = "p2"     -> [hasw |-> c.family # "now", w |-> IF c.family # "now" THEN GenW(R, 1) ELSE <<>>, fs |-> fs,
-                               ps |-> [i \in 1..Len(c.lens) |-> SelP(c.lens[i], R, i)]]
+                               ps |-> [i \in 1..Len(c.lens) |-> SelP(c.lens[i], R, i)], pden |-> 1]
 GenM(J, I) == GenT(<<J, I>>, 4)
 GenV(I)    == [k \in 1..I |-> ((k * 3 + 1) % 5) - 2]
 
